@@ -39,14 +39,15 @@ class TooDeep(BaseException):
 # After HANG_BUDGET calls that hit a limit no further implementation calls are made for generated cases (outcome
 # ('skipped',): no judgement); the inputs that hit the limit are reported with their replay.
 HANG_BUDGET = 3
+RECURSION_BUDGET = 40      # the same for calls that end in RecursionError / beyond the nesting bound (each costs up to 0.5 s)
 TREE_LIMIT_S = 10.0
 ADDRESS_SPACE_HEADROOM = 1536 * 1024 * 1024      # bytes a single implementation call may add to the process
-_HANGS = {'n': 0, 'pending': []}
+_HANGS = {'n': 0, 'rec': 0, 'pending': []}
 NO_RESULT = ('hang', 'timeout', 'memory', 'too-deep', 'recursion', 'skipped')
 
 
 def budget_left():
-    return _HANGS['n'] < HANG_BUDGET
+    return _HANGS['n'] < HANG_BUDGET and _HANGS['rec'] < RECURSION_BUDGET
 
 
 def note_hang(abbr, cfg, where):
@@ -119,6 +120,10 @@ def guarded(fn, abbr, cfg, where):
         gc.collect()          # the abandoned node lists (parent/child cycles) go before the next call
     if r[0] in ('hang', 'memory'):
         note_hang(abbr, cfg, where)
+    elif r[0] == 'recursion':
+        _HANGS['rec'] += 1
+        if len(_HANGS['pending']) < 5:
+            _HANGS['pending'].append((abbr, copy.deepcopy(cfg), where))
     return r
 
 
@@ -174,6 +179,8 @@ def expand_with_depth(abbr, cfg, call=None):
         _HANGS['n'] += 1          # reported by the caller (check_case) with this input as replay
         import gc
         gc.collect()
+    elif r[0] in ('recursion', 'too-deep'):
+        _HANGS['rec'] += 1
     return r, maxd[0]
 
 
@@ -1701,7 +1708,7 @@ def report_pending_hangs(ctx):
     per-call limit: 'resolution terminates' fails on that input."""
     while _HANGS['pending']:
         abbr, cfg, where = _HANGS['pending'].pop(0)
-        why = '%s did not finish within %d s of CPU time / the memory bound: resolution does not terminate' % (where, TREE_LIMIT_S)
+        why = '%s did not finish (RecursionError, or no result within %d s of CPU time / the memory bound): resolution does not terminate' % (where, TREE_LIMIT_S)
         ctx.property_failure('C14:%s|%s' % (abbr, canon_cfg(cfg)), 'C14 expand(%r, %s): %s' % (abbr, canon_cfg(cfg), why),
                              {'component': 'C14', 'kind': 'termination:' + where, 'a': abbr, 'b': None, 'config': cfg, 'equal': False,
                               'bound': None, 'termination_of': where, 'why': why})
@@ -1789,7 +1796,8 @@ def run(ctx):
                        'limit of 10 s that fires a BaseException (cannot be swallowed by `except Exception`) and under an address-space bound (RLIMIT_AS = size '
                        'at the first call + 1.5 GB, so a resolution whose node list doubles per round ends in MemoryError, not in the OOM killer); a call that '
                        'hits either limit is a violation of `resolution terminates` reported with its abbreviation and configuration as replay; after 3 such '
-                       'calls no further implementation calls are made (outcome skipped, no judgement) so that the run ends in time; '
+                       'calls (or 40 calls that end in RecursionError / beyond the nesting bound) no further implementation calls are made (outcome skipped, '
+                       'no judgement) so that the run ends in time; '
                        'parse_snippets multi-key expansion; every alias form also through the extracted model. '
                        'non-trivial = decorated alias or user table; distinct by abbreviation + config.')
     multikey_check(ctx)
@@ -1910,7 +1918,7 @@ def replay(ctx, obj):
     why, ra, depth = check_case(rp)
     if not why and rp.get('termination_of'):
         r = tree_of(rp['a'], rp['config']) if rp['termination_of'] == 'markup.parse' else impl_resolved(rp['a'], rp['config'])
-        if r[0] in ('hang', 'memory'):
+        if r[0] in ('hang', 'memory', 'recursion'):
             why = '%s(%r) does not terminate: %r' % (rp['termination_of'], rp['a'], r)
     print('expand(%r, %r)%s -> %r (depth %d)\nproperty oracle: %s' % (
         rp['a'], rp['config'], ' along the call route %r' % rp['route'] if rp.get('route') else '', ra, depth, why or 'holds'))
